@@ -130,9 +130,11 @@ CLAIMS.update({
         "and with the monitor's own clip+round.",
    note=S_NOTE + "Order-mistake shocks and user hooks dispatched after the rule can rewrite the price again; that is outside C15's quantifier (DESIGN 5/C15)."),
  "C16": dict(level="proof", suites=["S"], design="5/C16",
-   technique="Coq run-level theorem (fills only in rounds on running markets) + local theorems on halt decision / hold / resume + differential correspondence + schedule monitor",
+   technique="Coq run-level theorems (fills only in rounds on running markets; a halted market stays stopped while the record stands, lifted over steps, sessions and runs) + local theorems on halt decision / hold / resume + differential correspondence + schedule monitor",
    text="Theorems C16_* (props/C16.v): no fill on a market that is not running (market level and for every run); the halt fires at once when |p0 - price| >= |p0 x rate x (halts+1)| on a running target, "
         "does nothing otherwise; the market stays stopped until the clock passes halt time + length and resumes at the step after if its session is still current; orders are accepted while stopped. "
+        "Whole sessions and runs (theories/SimHalt.v, configurations with one halt rule): while the rule holds a record naming the current session, matching is off for the session and the recorded "
+        "market is stopped - an invariant of every atomic update of a step, hence of any number of steps, and of every run (records never name a session that has not started). "
         "Running flags and switches at every step record are compared with the model; the monitor simulates the schedule from the property text.",
    note=S_NOTE),
  "C17": dict(level="proof", suites=["S"], design="5/C17",
